@@ -69,6 +69,10 @@ def run_instance(case, obj=None):
                     must(case, '%s.compute between batches' % metric, obj.compute)      # must not disturb what follows
         res = must(case, '%s.compute' % metric, obj.compute)
         if case.get('compute_twice'):
+            _first = np.array(res, copy=True)
+            if isinstance(res, np.ndarray) and res.flags.writeable:
+                res[...] = -12345.0            # the caller owns what compute() returned: overwriting it must not change the next answer
+            res = _first
             res2 = must(case, '%s.compute (second call)' % metric, obj.compute)
             if not dist.same(res, res2):
                 raise Violation('%s: two consecutive compute() calls without new data differ' % metric, case)
@@ -133,6 +137,8 @@ def check_case(ctx, case):
     labels = ['metric:' + metric, 'prec:' + precision, 'regime:' + regime, 'tdtype:' + str(traces.dtype), 'ddtype:' + str(data.dtype),
               'classes:auto' if case['partitions'] is None else 'classes:explicit', 'nclasses:%s' % ('<=9' if len(classes) <= 9 else '<=64' if len(classes) <= 64 else '>64'),
               'batches:%d' % (len(case['cuts']) + 1), 'has_undefined' if n_undef else 'all_defined']
+    if (d2 < 0).any():
+        labels.append('negative_undeclared_values')
     if unbalanced:
         labels.append('unbalanced')
     if empty:
@@ -226,6 +232,11 @@ def cases(draw, precision, int_dtype, float_dtype, large=False):
         labels = draw_labels(draw, g, n, W, classes, first_len)
     maxlab = int(labels.max())
     ddt = draw(st.sampled_from([d for d in gen.CLASS_DTYPES if maxlab <= np.iinfo(d).max]))
+    if np.dtype(ddt).kind == 'i' and draw(st.integers(0, 2)) == 0 and (mode != 'auto' or first_len < n):
+        # signed data may carry negative values: they are not classes (with automatic classes only after the first batch, which must be non-negative)
+        lo_pos = first_len if mode == 'auto' else 0
+        for _ in range(draw(st.integers(1, 4))):
+            labels[int(g.integers(lo_pos, n)), int(g.integers(W))] = -int(g.choice([1, 2, 3, 5, 100]))
     data = labels.astype(ddt).reshape((n,) + tuple(wshape))
     B = _bound(n, precision)
     if regime == 'exact':
